@@ -1,10 +1,24 @@
 """C04 - well-formed changelogs round-trip byte for byte through Changelog, and expose what was written.
 
-case = {"form": "str" | "bytes" | "lines" | "lines-nl" | "bytes-lines" | "file",
+case = {"form": "str" | "bytes" | "lines" | "lines-nl" | "bytes-lines" | "file" | "bytes-file",
+        "codec": "utf-8" | "latin-1" | ...,     (optional, default "utf-8": how bytes input is encoded)
+        "via": "default" | "ctor" | "call" | "call-over",   (optional, default "default")
+        "other": codec,                         (only for "call-over": the constructor's encoding)
         "lead": [...], "blocks": [...]}          (structure: see gen/c04_changelog.py)
 
 The text is the plain concatenation of the rendered lines, each followed by "\\n"; everything the
 library must expose is read off the structure (there is no model of the parser).
+
+``encoding`` is the documented way to say how bytes input is to be read; it can be given to the
+constructor, to parse_changelog(), or to both with different values (an explicit argument of the
+call is what that call reads its input with).  "via" says where the codec of the input goes:
+
+    default    Changelog(input, strict=True)                                   (codec is UTF-8)
+    ctor       Changelog(input, strict=True, encoding=codec)
+    call       Changelog().parse_changelog(input, strict=True, encoding=codec)
+    call-over  Changelog(encoding=other).parse_changelog(input, strict=True, encoding=codec)
+
+str-typed forms get the same treatment (the parameter must then be without effect on str()).
 """
 import io
 import warnings
@@ -22,8 +36,13 @@ RULE = ("cases are changelog structures drawn from the deb-changelog(5) grammar 
         "'pkg (version) dist...; urgency=U[ comment][, key=value]*'; change lines = blank lines or "
         ">=2 blanks + printable text incl. look-alikes of headers/trailers/mode lines; trailer "
         "' -- name <email>  date[blanks]'; 0..2 blank or whitespace-only lines before, inside and "
-        "after blocks) x 6 input forms (str, UTF-8 bytes, list of lines with/without newline, list "
-        "of bytes lines, file object); expected text = concatenation of the rendered lines. "
+        "after blocks) x 7 input forms (str, bytes, list of lines with/without newline, list "
+        "of bytes lines, text file object, binary file object) x encoding of bytes input (UTF-8, "
+        "latin-1, iso-8859-15, cp1252, koi8-r, euc-jp, gb18030; UTF-16 for whole-text forms only; "
+        "characters a codec cannot spell are replaced by characters it can) x where the "
+        "codec is named (nowhere = UTF-8 default / encoding= of the constructor / encoding= of "
+        "parse_changelog on a default object / encoding= of parse_changelog on an object "
+        "constructed with a different encoding); expected text = concatenation of the rendered lines. "
         "Non-trivial = >=2 blocks, or extra keys, or an urgency comment, or a change line "
         "containing '#', ':' or non-ASCII; distinct = distinct canonical JSON of the case")
 ASSUMPTIONS = [
@@ -33,28 +52,85 @@ ASSUMPTIONS = [
     "blanks after the date are accepted either as part of the exposed date or dropped from it; "
     "the byte-for-byte clause pins them down anyway",
     "a recogniser written with independent regular expressions rejects replay cases outside the domain",
+    "bytes input = Python's own codec applied to the expected text (checked to decode back to it); lines of "
+    "bytes are the encoded lines (codecs are stateless and keep b'\\n' for the newline only); bytes() is "
+    "compared with the encoded text only when the object was constructed with (or defaults to) the input's codec",
     "Hypothesis 6.168 generators; sha1 for distinctness",
 ]
 BUDGET = {"quick": 200, "thorough": 1500}
 
-FORMS = ["str", "bytes", "lines", "lines-nl", "bytes-lines", "file"]
+FORMS = ["str", "bytes", "lines", "lines-nl", "bytes-lines", "file", "bytes-file"]
+BYTES_FORMS = ("bytes", "bytes-lines", "bytes-file")
+LINEWISE_BYTES_FORMS = ("bytes-lines", "bytes-file")
+VIAS = ["default", "ctor", "call", "call-over"]
+OTHERS = sorted(G.CODECS) + ["ascii"]
 
 
-def make_input(form, lines):
+def make_input(form, lines, codec="utf-8"):
     text = "".join(l + "\n" for l in lines)
     if form == "str":
         return text
     if form == "bytes":
-        return text.encode("utf-8")
+        return text.encode(codec)
     if form == "lines":
         return list(lines)
     if form == "lines-nl":
         return [l + "\n" for l in lines]
     if form == "bytes-lines":
-        return [(l + "\n").encode("utf-8") for l in lines]
+        return [(l + "\n").encode(codec) for l in lines]
     if form == "file":
         return io.StringIO(text)
+    if form == "bytes-file":
+        return io.BytesIO(text.encode(codec))
     raise ValueError(form)
+
+
+def encoding_of(case):
+    """(codec, via, other) of a case, or None when the combination is outside the domain."""
+    codec, via, other = case.get("codec", "utf-8"), case.get("via", "default"), case.get("other")
+    if codec not in G.CODECS or via not in VIAS:
+        return None
+    if via == "default" and codec != "utf-8":
+        return None
+    if via == "call-over":
+        if other not in OTHERS or other == codec:
+            return None
+    elif other is not None:
+        return None
+    if case["form"] in LINEWISE_BYTES_FORMS and codec in G.WHOLE_ONLY_CODECS:
+        return None
+    return codec, via, other
+
+
+def parse_fresh(inp, codec, via, other):
+    """A new Changelog made from the input, the codec named where ``via`` says."""
+    if via == "default":
+        return Changelog(inp, strict=True)
+    if via == "ctor":
+        return Changelog(inp, strict=True, encoding=codec)
+    cl = Changelog() if via == "call" else Changelog(encoding=other)
+    cl.parse_changelog(inp, strict=True, encoding=codec)
+    return cl
+
+
+def parse_into_used(inp, codec, via, other):
+    """The input parsed into a Changelog that already holds (scribbled-on) blocks of another text."""
+    if via == "default":
+        used = Changelog(PRIOR_TEXT, strict=True)
+    elif via == "ctor":
+        used = Changelog(PRIOR_TEXT.encode(codec), strict=True, encoding=codec)
+    elif via == "call":
+        used = Changelog(PRIOR_TEXT, strict=True)
+    else:
+        # the earlier parse read bytes in the object's own (different) encoding
+        used = Changelog(PRIOR_TEXT.encode(other), strict=True, encoding=other)
+    used[0].add_change("  * scribble")
+    used.initial_blank_lines.append("")
+    if via in ("default", "ctor"):
+        used.parse_changelog(inp, strict=True)
+    else:
+        used.parse_changelog(inp, strict=True, encoding=codec)
+    return used
 
 
 def _error_class(msg):
@@ -89,14 +165,23 @@ PRIOR_TEXT = ("\nprior (0.1-1) unstable; urgency=low\n\n  * prior entry\n\n"
 def check(case):
     if not (isinstance(case, dict) and case.get("form") in FORMS and G.wellformed(case)):
         return (False, ("invalid-case-skipped",))
+    enc = encoding_of(case)
+    if enc is None:
+        return (False, ("invalid-case-skipped",))
+    codec, via, other = enc
     lines = G.render_lines(case)
     text = "".join(l + "\n" for l in lines)
-    inp = make_input(case["form"], lines)
+    if not G.encodable(text, codec):
+        return (False, ("invalid-case-skipped",))
+    encoded = text.encode(codec)
+    inp = make_input(case["form"], lines, codec)
+    if case["form"] in LINEWISE_BYTES_FORMS and b"".join(make_input("bytes-lines", lines, codec)) != encoded:
+        return (False, ("invalid-case-skipped",))      # the codec is not line-wise after all
 
     with warnings.catch_warnings(record=True) as caught:
         warnings.simplefilter("always")
         try:
-            cl = Changelog(inp, strict=True)
+            cl = parse_fresh(inp, codec, via, other)
         except ChangelogParseError as e:
             raise Violation("strict-rejects:" + _error_class(str(e)), "%s for %s" % (e, short(text)))
     if caught:
@@ -106,9 +191,12 @@ def check(case):
     got = str(cl)
     if got != text:
         raise Violation("str-differs", "str() gives %s, text %s" % (short(got), short(text)))
-    gotb = bytes(cl)
-    if gotb != text.encode("utf-8"):
-        raise Violation("bytes-differs", "bytes() gives %s" % short(gotb))
+    if via in ("default", "ctor"):
+        # the object's encoding is that of the input: bytes() is the text as it was (or would be) handed in
+        gotb = bytes(cl)
+        if gotb != encoded:
+            raise Violation("bytes-differs", "bytes() gives %s, the text in %s is %s"
+                            % (short(gotb), codec, short(encoded)))
 
     want = case["blocks"]
     _expect("block-count", "len()", len(cl), len(want))
@@ -143,13 +231,10 @@ def check(case):
     # The same text parsed into an object that already holds something (an earlier parse of a
     # different changelog, then scribbled on) must give the same result: what a Changelog holds
     # after parse_changelog() is a function of the text just parsed.
-    used = Changelog(PRIOR_TEXT, strict=True)
-    used[0].add_change("  * scribble")
-    used.initial_blank_lines.append("")
     with warnings.catch_warnings(record=True) as caught:
         warnings.simplefilter("always")
         try:
-            used.parse_changelog(make_input(case["form"], lines), strict=True)
+            used = parse_into_used(make_input(case["form"], lines, codec), codec, via, other)
         except ChangelogParseError as e:
             raise Violation("reparse-into-used-object:strict-rejects",
                             "%s for %s" % (e, short(text)))
@@ -162,16 +247,40 @@ def check(case):
 
     labels = G.struct_labels(case)
     labels.add("form:" + case["form"])
+    labels.add("codec:" + codec)
+    labels.add("encoding-via:" + via)
+    if case["form"] in BYTES_FORMS and not text.isascii():
+        labels.add("non-ascii-bytes-input")
+        if codec != "utf-8":
+            labels.add("non-ascii-bytes-input:non-utf-8:" + via)
+            if case["form"] in LINEWISE_BYTES_FORMS:
+                labels.add("non-ascii-bytes-lines:non-utf-8:" + via)
     return (G.struct_nontrivial(case), sorted(labels))
 
 
 # ------------------------------------------------------------------------------------------
 
 
+_forms = st.sampled_from(FORMS)
+_vias = st.sampled_from(["default", "default", "default", "ctor", "ctor", "call", "call", "call-over", "call-over"])
+_codecs = st.sampled_from(sorted(G.CODECS))
+_linewise_codecs = st.sampled_from(sorted(G.LINEWISE_CODECS))
+_others = {c: st.sampled_from([o for o in OTHERS if o != c]) for c in G.CODECS}
+
+
 @st.composite
 def gen_case(draw, max_blocks=4):
     s = draw(G.structs(max_blocks=max_blocks))
-    s["form"] = draw(st.sampled_from(FORMS))
+    form = draw(_forms)
+    via = draw(_vias)
+    if via == "default":
+        s["form"] = form
+        return s
+    codec = draw(_linewise_codecs if form in LINEWISE_BYTES_FORMS else _codecs)
+    s = G.transliterate(s, codec)
+    s["form"], s["codec"], s["via"] = form, codec, via
+    if via == "call-over":
+        s["other"] = draw(_others[codec])
     return s
 
 
